@@ -3740,9 +3740,14 @@ static int bufr_load_datasubsets( FILE *fp, BUFR_Dataset *dts, int lineno, BUFR_
       len = strlen( ptr );
       while (isspace(ptr[i]) && (i < len)) ++i;
 
-      if (ptr[i] == '{')  /* Skip Meta Info */
+/*
+ * every leading {...} block is meta info; a '}' further down the line belongs to the value
+ */
+      while (ptr[i] == '{')  /* Skip Meta Info */
          {
-         int j = len-1;
+         int j = i;
+         while ((ptr[j] != '}') && (j < len)) ++j;
+         if (j >= len) break;
          if (debug)
             {
             int slen = strlen( ptr );
@@ -3754,7 +3759,6 @@ static int bufr_load_datasubsets( FILE *fp, BUFR_Dataset *dts, int lineno, BUFR_
             sprintf( errmsg, _("   *** skipping comment: '%s'"), ptr );
             bufr_print_debug( errmsg );
             }
-         while ((ptr[j] != '}') && (j >= i)) --j;
          i = j;
          ptr = ptr+i+1;
 
